@@ -600,10 +600,22 @@ func yamlString(s string) string {
 		return s
 	}
 
+	// After a double quoted scalar that holds escape sequences, the YAML
+	// library (go-yaml 1.11) looks for the ':' of a mapping key a few
+	// characters too early, that is inside the scalar, and then reads the rest
+	// of the text as a mapping. Writing ':' as an escape sequence in such
+	// scalars keeps it from finding one.
+	escColon := strings.IndexFunc(s, func(r rune) bool {
+		return r == '"' || r == '\\' || r < 0x20 || r == 0x7f || r == 0x85 ||
+			r == 0xa0 || r == 0x2028 || r == 0x2029 || r == 0xfeff
+	}) >= 0
+
 	var b strings.Builder
 	b.WriteByte('"')
 	for _, r := range s {
 		switch {
+		case r == ':' && escColon:
+			b.WriteString(`\x3a`)
 		case r == '"':
 			b.WriteString(`\"`)
 		case r == '\\':
